@@ -41,7 +41,7 @@ MDNS == 5353
 ClausesOf ==
   [C03 |-> {"C03_MissingAnswer", "C03_UnexpectedAnswer", "C03_ConfiguredTtl", "C03_AdditionalsOwn", "C03_AdditionalRepeatsAnswer"},
    C11 |-> {"C11_ProbeImmediate", "C11_UnicastReply", "C11_UnicastEcho", "C11_NoFlushInUnicast", "C11_SameSocket", "C11_UnexpectedUnicast",
-            "C11_MulticastFormat", "C11_WellFormedReply", "C11_QuRouting"},
+            "C11_MulticastFormat", "C11_WellFormedReply", "C11_QuRouting", "C11_LegacyAlsoMulticast"},
    C12 |-> {"C12_NoEarlyOrUnsolicited", "C12_AnsweredAtOnce", "C12_By500", "C12_ProtectedBy1200", "C12_NoDuplicateInBatch"},
    C12S |-> {"C12_OneSecondAfterAnySighting"},
    C08 |-> {"C08_GoodbyeComplete", "C08_NoResurrection", "C08_AnnouncementComplete"},
@@ -144,11 +144,11 @@ Route(st, Q) == RouteFrom(st, Q, 1, [u |-> {}, now |-> {}, prot |-> {}, agg |-> 
 S2(st, Q, r) == IF Q.probe THEN 0 ELSE IF Q.tq - st.tx[r] < 1000 THEN st.tx[r] + 1000 ELSE 0
 NewOblReq(st, Q, rt) ==
   {[r |-> r, qn |-> st.qn + 1, qt |-> Q.ta, lo |-> Q.ta, hi |-> Q.ta, cls |-> IF Q.probe THEN "probe" ELSE "now", st |-> "open",
-    s2 |-> S2(st, Q, r)] : r \in rt.now}
-  \cup {[r |-> r, qn |-> st.qn + 1, qt |-> Q.ta, lo |-> Q.ta + 20, hi |-> Q.ta + 500, cls |-> "agg", st |-> "open", s2 |-> S2(st, Q, r)] : r \in rt.agg}
-  \cup {[r |-> r, qn |-> st.qn + 1, qt |-> Q.ta, lo |-> Q.ta, hi |-> Q.ta + 500, cls |-> "agg", st |-> "open", s2 |-> S2(st, Q, r)] : r \in rt.lax}
+    s2 |-> S2(st, Q, r), leg |-> Q.port # MDNS] : r \in rt.now}
+  \cup {[r |-> r, qn |-> st.qn + 1, qt |-> Q.ta, lo |-> Q.ta + 20, hi |-> Q.ta + 500, cls |-> "agg", st |-> "open", s2 |-> S2(st, Q, r), leg |-> Q.port # MDNS] : r \in rt.agg}
+  \cup {[r |-> r, qn |-> st.qn + 1, qt |-> Q.ta, lo |-> Q.ta, hi |-> Q.ta + 500, cls |-> "agg", st |-> "open", s2 |-> S2(st, Q, r), leg |-> Q.port # MDNS] : r \in rt.lax}
   \cup {[r |-> r, qn |-> st.qn + 1, qt |-> Q.ta, lo |-> Max(st.seen[r].c + 1000, Q.ta + 20), hi |-> Q.ta + 1200, cls |-> "prot", st |-> "open",
-          s2 |-> S2(st, Q, r)] : r \in rt.prot}
+          s2 |-> S2(st, Q, r), leg |-> Q.port # MDNS] : r \in rt.prot}
 
 NewObl(st, Q, rt) == {[o EXCEPT !.st = IF o.r \in rt.opt THEN "cov" ELSE "open"] : o \in NewOblReq(st, Q, rt)}
 
@@ -160,7 +160,9 @@ Answer(st, Q, dst, sock, id) ==
                       qs |-> Q.echo, legacy |-> Q.port # MDNS, done |-> FALSE, t |-> Q.ta]]
 
 (* ------------------------------------------------------------------ deadlines *)
-DeadlineClause(o) == IF o.cls = "probe" THEN "C11_ProbeImmediate" ELSE IF o.cls = "now" THEN "C12_AnsweredAtOnce" ELSE IF o.cls = "agg" THEN "C12_By500" ELSE "C12_ProtectedBy1200"
+\* (C11: a query from another port gets its unicast reply "in addition to the normal multicast": that multicast being
+\*  overdue is a C11 matter in the C11 check and a timing matter -- the same deadline -- in the C12 check)
+DeadlineClause(o) == IF o.cls = "probe" THEN "C11_ProbeImmediate" ELSE IF o.leg /\ D.own = "C11" THEN "C11_LegacyAlsoMulticast" ELSE IF o.cls = "now" THEN "C12_AnsweredAtOnce" ELSE IF o.cls = "agg" THEN "C12_By500" ELSE "C12_ProtectedBy1200"
 Overdue(st, t) == {o \in st.obl : o.st = "open" /\ o.hi < t}
 CheckExp(st, t) ==
   IF st.exp.on /\ st.exp.t < t
